@@ -626,6 +626,8 @@ func famTyped(dir string, seed int64, tier string) {
 	typedRegisteredMarshaler(repM, repU)
 	typedRegistrationOrder(repM, repU)
 	typedEmbedded(repU)
+	typedDualHook(repU)
+	typedDeprecationMemo(repU)
 	typedMore(dir, seed, tier, repU, wU)
 	typedTargeted(repU, wU, r)
 	typedEvolution(dir, seed, tier, repM, repU, wM, wU)
